@@ -95,7 +95,15 @@ def run(ctx):
     dg = [(b, c) for b in lib for c in b.calls() if c.name == "downgrade" and "Arc" in c.def_]
     builds = [(b, i) for b in lib for i in b.live_blocks() for s in b.stmts(i) if s["k"] == "assign" and s["rv"]["k"] == "agg" and (s["rv"].get("adt") or "").endswith("keep_alive::DropAll")]
     for b, i in builds:
-        ctx.check(any(x is b for x, _ in dg), "R06.2", fnkey(b) + "#dropall-from-downgrade", loc(b, i), "DropAll is built without Arc::downgrade (it would keep the entry alive)")
+        okd = True
+        for s_ in b.stmts(i):
+            if s_["k"] == "assign" and s_["rv"]["k"] == "agg" and (s_["rv"].get("adt") or "").endswith("keep_alive::DropAll"):
+                o = Prov(b).operand(s_["rv"]["ops"][0])
+                srcs = {(b.term(x[1]).get("callee") or {}).get("name") for x in o if x[0] == "call"}
+                okd = okd and srcs == {"downgrade"}
+        ctx.check(okd, "R06.2", fnkey(b) + "#dropall-from-downgrade", loc(b, i),
+                  "a force-flush token is built from something else than Arc::downgrade of the guard token (e.g. an empty Weak): dropping it "
+                  "releases nothing, so the entry is not appended when the owner and a force-flush guard are gone")
     # ------------------------------------------------------------------ R06.3
     leaks = []
     for b in lib:
